@@ -454,10 +454,46 @@ class StubsLib(StubsBase):
             "moveaxis": Stub(lambda c, x, a, b: self._np_moveaxis(c, x, a, b), "np.moveaxis"),
             "expand_dims": Stub(lambda c, x, axis: self.getitem(x, tuple([SSlice()] * (axis % (x.ndim + 1)) + [None]), c), "np.expand_dims"),
             "shares_memory": Stub(lambda c, a, b: bool(a.owner & b.owner), "np.shares_memory"),
+            "nan_to_num": Stub(self.np_nan_to_num, "np.nan_to_num"),
+            "roll": Stub(self.np_roll, "np.roll"),
         })
         attrs["s_"].is_index_exp = True
         self.ext["numpy"] = NS("numpy", attrs)
         self.ext["numpy.polynomial.Polynomial"] = None
+
+    def np_nan_to_num(self, ctx, x, copy=True, nan=0.0, posinf=None, neginf=None):
+        """Model E has no nan/inf: the values are unchanged; with copy=False the argument itself is written."""
+        ctx.note("stub:np.nan_to_num is the identity on finite values (model E has no nan/inf); copy=False writes into its argument")
+        q = x if not isinstance(x, Qty) else x.val
+        if not isinstance(q, SArr):
+            return x
+        if self.interp.truthy_sym(copy, ctx) is not True:
+            self.frame_write_arr(q, "np.nan_to_num copy=False", ctx)
+            return x
+        r = SArr(q.shape, q.elem, q.dtype, q.backend)
+        return r if not isinstance(x, Qty) else Qty(r, x.dim, x.unit)
+
+    def np_roll(self, ctx, x, shift, axis=None):
+        """np.roll along one axis (a fresh array): out[..., i, ...] = x[..., (i - shift) mod n, ...]."""
+        if not isinstance(x, SArr):
+            raise Unsupported("np.roll operand")
+        if axis is None:
+            if x.ndim != 1:
+                raise Unsupported("np.roll without axis on a multi-dimensional array (rolls the flattened array)")
+            axis = 0
+        ax = A.norm_axis(x, axis)
+        n = x.shape[ax]
+        if isinstance(shift, (float, Fraction)) or (is_sym(shift) and not z3.is_int(shift)):
+            raise Unsupported("np.roll by a non-integer")
+        ctx.note("stub:np.roll(x, k, axis): out[i] = x[(i - k) mod n]")
+        if ctx.branch(V.le(n, 0), "roll of an empty axis"):
+            return SArr(x.shape, x.elem, x.dtype, x.backend)
+
+        def elem(ix):
+            ix = list(ix)
+            ix[ax] = V.mod_int(ctx, V.sub(ix[ax], shift), n)
+            return x.elem(tuple(ix))
+        return SArr(x.shape, elem, x.dtype, x.backend)
 
     def to_dtype(self, d):
         if isinstance(d, DType):
